@@ -118,6 +118,14 @@ def _mi_prepare(e, firsts=("MNamed", "MBodied", "MFunc", "MEmpty")):
         R("VMany", items=(R(f"MNamed{tag}", name_kid=L()), R(F, name_kid=L(), body=(L(),)), R(O, name_kid=L()))),
         R(E_, {"label": 2}, name_kid=R(f"MBodied{tag}", body=(L(), L()))),
     ]
+    if first == "MNamed":
+        # annotation styles (quoted and evaluated interleaved; a plain base annotating later names):
+        # independent of the first-use order, so only in one of the families
+        shapes += [
+            R(f"MQuoted{tag}", {"q": 3}, left=L(), op=L(), right=(), extra=(L(),)),
+            R(f"MQuoted{tag}", {}, left=None, op=L(), right=(L(),), extra=()),
+            R(f"MAnnBase{tag}", {}, ahead=L(), aitems=(L(),), atail=L()),
+        ]
     return [number(x) for x in shapes], {"class_used_first": first}
 
 
